@@ -26,6 +26,14 @@ DensRatio(x1, x2) == RDiv(x2, x1)
 \* sigma_K on the lattice: p3 = (P/P0)^(-1/3) in {2, 1, 1/2}, r = sqrt(1 - e^2) in {1, 4/5, 3/5}
 SigmaK(sK0, p3, r, maxK) == RMin(RDiv(RMul(sK0, p3), r), maxK)
 
+\* K | P, e is Normal about the DECLARED mean: the location parameter is mu and, for x = mu + z sigma_K,
+\*   -2 (ln p(x) - ln p(mu)) = z^2
+KMean(mu) == mu
+ZSq(z) == RMul(z, z)
+\* default trend terms v_i ~ Normal(0, sigma_v[i]) and user offsets dv0_j ~ Normal(m_j, s_j): the scale that reaches the model is
+\* the declared one, in whatever (equivalent) unit it was declared - compared in km/s/d^i
+TrendScale(declared) == declared
+
 KippingGlobal == <<Norm(867, 1000), Norm(303, 100)>>
 KippingShort == <<Norm(697, 1000), Norm(327, 100)>>
 KippingLong == <<Norm(112, 100), Norm(309, 100)>>
